@@ -280,6 +280,10 @@ def run(ctx):
     from ..rules_stream import s3_counter
     from .c03 import HIN, HOUT, packer_loads
     packer_loads(ctx, "U6", "_UpConverter")
+    from ..share import lift
+    lift(ctx, "c03", [("S3", "_UpConverter", "word completion restarts the lane counter"), ("S3", "_UpConverter", "strobe_all")], "U7",
+         "a wide beat closed early by `last` (a burst whose length is not a multiple of the ratio) leaves the packing element at lane 0 for "
+         "the next burst (C03.S3 decides the same construct)", min_sites=2)
     for cls_, cnt_, hs_ in (("_UpConverter", "demux", HIN), ("_DownConverter", "mux", HOUT)):
         s3_counter(ctx, "U6", fx_of(ctx, "litex/soc/interconnect/stream.py", cls_), cls_, cnt_, hs_)
 
